@@ -18,6 +18,10 @@ MISSES = ["cap", "xxcap", "lost found", "lostfound", "libs", "mylib", "bins", "e
           "a.abstracts", "aabstract", "akeyboards", "k.keyboard", "qask", "3d", "m.3dx", "x~\n\n"]
 PLAIN = ["a.txt", "b.txt", "c.html", "data.bin", "read me.txt", "Zebra", "apple", "café.txt", "\udcae.txt",
          "UP.TXT", "t.tar.gz", "img.gif", "z", "10", "9", "a.b.c", "sub", "sub2", "deep"]
+# names a "smart" comparison might identify or reorder: leading zeros, letter case, trailing dot / blank,
+# Unicode normalisation forms, embedded numbers.  The order of a listing is by code point, nothing else.
+TIE_GROUPS = [["1.txt", "01.txt", "001.txt"], ["page7", "page07", "page10"], ["Readme", "README", "readme"],
+              ["x", "x.", "x "], ["caf\u00e9", "cafe\u0301"], ["a1b", "a01b", "a10b", "a2b"], ["\uff11", "1"]]
 DIRLIKE = {"lib", "bin", "etc", "dev", "lost+found", "sub", "sub2", "deep", ".cap", ".dotdir"}
 DOTS = [".hidden", ".Links", ".names", ".dotdir", ".x"]
 
@@ -39,6 +43,8 @@ def gen_tree(rng, size, base, patt=None):
     names = set()
     names.add(rng.choice(MATCHING))
     names.add(rng.choice(MISSES))
+    if size >= 4 and rng.random() < 0.6:
+        names.update(rng.sample(rng.choice(TIE_GROUPS), 2))
     while len(names) < size:
         names.add(rng.choice(rng.choice([MATCHING, MISSES, PLAIN, PLAIN, DOTS])))
     names = sorted(names)
@@ -62,8 +68,9 @@ def gen_tree(rng, size, base, patt=None):
     base_sel = "" if base == "/" else base
     # link and .cap files only refer to entries the listing would show (an override or hide block
     # for a file that is not listed ADDS an entry for it; that is C08's subject, not C07's)
+    # ... and that a line of a link file can name at all (lines are stripped)
     listed = [n for n in names if not n.startswith(".") and not re.search(patt, base_sel + "/" + n)
-              and "\n" not in n]
+              and "\n" not in n and n == n.strip() and not n.endswith("/")]
     link_hidden = set()      # hidden by a link block: later blocks may name the same path again, it stays hidden
     real_hidden, real_link_hidden = hidden, link_hidden
     for n in names:
@@ -79,7 +86,7 @@ def gen_tree(rng, size, base, patt=None):
             for tgt in rng.sample(listed, min(len(listed), rng.randrange(0, 3))):
                 if rng.random() < 0.35:
                     link_hidden.add(tgt)
-                    blocks.append("Type=X\nPath=./%s\n" % tgt)
+                    blocks.append("Type=X\nPath=./%s%s\n" % (tgt, rng.choice(["", "", "/"])))
                     hidden.add(tgt)
                 else:
                     blocks.append("Path=./%s\nName=%s\n%s" % (tgt, rng.choice(["Renamed " + tgt, "AAA", "zzz"]),
@@ -144,6 +151,37 @@ def hide_sequence_tree(rng, base):
         tree.append({"path": pre + l, "data": "\n".join(per_file[l])})
     names = files + links + ([".cap"] if any("/.cap/" in "/" + t["path"] for t in tree) else [])
     return tree, names, hidden
+
+
+def hide_first_trees():
+    """Deterministic family: for every pair (hide block, other block) about the same ./path the hide block is
+    read BEFORE the other one — later in the same link file, or in a link file read later — for files and for
+    a directory, with and without a trailing slash in Path=.  Once hidden, the entry stays hidden."""
+    hides = ["Type=X\nPath=./%s\n", "Path=./%s\nType=-\n"]
+    others = ["Path=./%s\nName=Title again\n", "Numb=1\nPath=./%s\n", "Type=X\nPath=./%s\n",
+              "Name=Both\nPath=./%s\nNumb=-1\nType=1\n"]
+    out = []
+    for slash in ("", "/"):
+        for layout in ("same-file", "two-files", "three-files"):
+            targets = ["f%d.txt" % i for i in range(len(others))] + ["internal"]
+            tree = [{"path": "d/" + t, "data": "content\n"} for t in targets[:-1]]
+            tree += [{"path": "d/internal", "kind": "dir"}, {"path": "d/internal/x.txt", "data": "x\n"},
+                     {"path": "d/keep.txt", "data": "kept\n"}]
+            first, second = [], []
+            for i, t in enumerate(targets):
+                p = t + slash
+                first.append(hides[i % 2] % p)
+                second.append(others[i % len(others)] % p)
+            if layout == "same-file":
+                files = {".names": first + second}
+            elif layout == "two-files":
+                files = {".Links": first, ".names": second}
+            else:
+                files = {".Links": first[::2], ".mid": first[1::2] + second[:2], ".names": second[2:]}
+            for k, blocks in files.items():
+                tree.append({"path": "d/" + k, "data": "\n".join(blocks)})
+            out.append((tree, targets + ["keep.txt"] + sorted(files), set(targets)))
+    return out
 
 
 def matching_dirs(patt):
@@ -213,9 +251,25 @@ def tie_tree():
             {"path": "d/.q", "data": blk % "q"}], ["m.txt", ".p", ".q"], set()
 
 
+def tie_names_tree(rng, base):
+    """names (and link-file names, and titles) that only a code-point comparison tells apart"""
+    pre = base.strip("/")
+    pre = pre + "/" if pre else ""
+    g = rng.choice(TIE_GROUPS)
+    files = rng.sample(g, min(len(g), rng.randrange(2, 4)))
+    tree = [{"path": tp(pre + n), "data": "content of %s\n" % tp(n)} for n in files]
+    links = rng.choice([[".1", ".01"], [".Links", ".LINKS"], [".n7", ".n07"], []])
+    tgt = files[0]
+    for i, l in enumerate(links):
+        # both link files give the same file a title (the later file name wins) and add a link with tying titles
+        tree.append({"path": tp(pre + l), "data": td("Path=./%s\nName=Title %d\n\nName=Page %s\nType=1\nPath=/elsewhere/%d\nHost=+\nPort=+\n"
+                                                      % (tgt, i, ["7", "07"][i], i))})
+    return tree, files + links, set()
+
+
 def entry_pool(rng):
     nums = [-2, -1, 0, 1, 2, 10]
-    names = ["a", "b", "B", "ab", "", "é", "z\udcae", None]
+    names = ["a", "b", "B", "ab", "", "é", "z\udcae", None, "1", "01", "x2", "x10", "x02"]
     pool = [(n, k) for n in names for k in nums]
     rng.shuffle(pool)
     return pool
@@ -352,12 +406,18 @@ def run(tier):
     for base in ("/all", "/"):
         t, names, hidden = full_tree(base)
         trees.append({"tree": t, "dir": base, "names": names, "hidden": hidden, "perms": None, "nrand": 3})
+    for k in range(10 if thorough else 5):
+        base = ["/d", "/"][k % 2]
+        t, names, hidden = tie_names_tree(rng, base)
+        trees.append({"tree": t, "dir": base, "names": names, "hidden": hidden, "perms": "all"})
     # several blocks for the same path, one of them hiding it
     for k in range(16 if thorough else 8):
         base = ["/d", "/", "/deep/er"][k % 3]
         t, names, hidden = hide_sequence_tree(rng, base)
         trees.append({"tree": t, "dir": base, "names": names, "hidden": hidden, "perms": "all" if len(names) <= 5 else None,
                       "nrand": 40})
+    for t, names, hidden in hide_first_trees():
+        trees.append({"tree": t, "dir": "/d", "names": names, "hidden": hidden, "perms": None, "nrand": 6})
     # directories whose own path is matched by an unanchored alternative; other configured patterns
     for patt in [None] + OTHER_PATTERNS:
         live = patt or shipped
